@@ -176,6 +176,26 @@ theorem witness_nested_hier_parent :
     let o := perform hier4 hier4H 32 (canon hier4 3) "go"
     o.err = none ∧ o.st.cur = 3 ∧ flags hier4 o.st = [true, false, false, true] ∧ invB hier4 o.st = false := by decide +kernel
 
+/-- the child's enter handler raises (a plain exception, or a request that is refused: for the engine, which has no `except`, a
+handler requesting a transition that does not exist) -/
+def hier3R : Handlers := fun ev => match ev with | .enter 1 => [fun _ => ["!"]] | _ => []
+
+/-- **A handler that raises half-way through a transition of a hierarchical machine (finding c18-handler-raises).**
+`go` enters the child `1` from outside its parent `0`; the child's enter handler raises; `State.enter` never reaches
+`self.parent.enter(...)`: the exception propagates, the machine is in the child, the child reports active, the parent does not.
+(In a flat machine the flags stay exact whatever an enter or called handler raises: `active_is_ancestors_flat_nested`.) -/
+theorem witness_handler_raises :
+    let o := perform hier3 hier3R 32 (canon hier3 2) "go"
+    o.err = some .unknown ∧ o.st.cur = 1 ∧ flags hier3 o.st = [false, true, false] ∧ invB hier3 o.st = false := by decide +kernel
+
+/-- the same on the way out: the child's leave succeeds, the parent's leave handler raises — the machine is still "in" the child,
+which no longer reports active, while the parent does -/
+def hier3L : Handlers := fun ev => match ev with | .leave 0 => [fun _ => ["!"]] | _ => []
+
+theorem witness_handler_raises_leave :
+    let o := perform hier3 hier3L 32 (canon hier3 1) "back"
+    o.err = some .unknown ∧ o.st.cur = 1 ∧ flags hier3 o.st = [true, false, false] ∧ invB hier3 o.st = false := by decide +kernel
+
 /-- why (b) excludes requests from *leave* handlers: `old_state` is read after `leave` returned, so the transition performed by
 a leave handler (here: 0 → 2, once) is overwritten — two states stay active in a flat machine -/
 def flat3 : MDef where
